@@ -128,7 +128,7 @@ Theorem leff_KInv : forall n y y', leff n y y' -> LInv n y -> LInv2 y -> KInv y 
 Proof.
   intros n y y' H I J K. destruct K as [K1 KM KR0 KR KR2 KCB].
   destruct H as [m s' sent' cast' el' x s He Hl Ht Hr1 Hr2 Hs Hel Hcm Hs2 Hcand Hmi Hincl
-                |m s' x s He Hc Hl Ht Hlog Hcm Hvs Hz
+                |m s' x s He Hc Hl Ht Hlog Hcm Hvs Hz Hmaj
                 |m s' sent' ext x s He Hr Hr' Ht Hlog Hext Hwf Hs Hcm Hmx Hse
                 |m s' o x s He Hr Hr' Ht Hlog Ho Hc1 Hmx Hrule Hlc
                 |m s' o f0 ldr pli plt es lc cmt x s He Hin Hr Hr' Ht Hm Ha Ho Hcmt Hcm Hoo
